@@ -189,6 +189,10 @@ func (b *c14Backend) Unwrap() backend.Backend { return b.Backend }
 type c14Loc struct{ name string }
 
 func c14MultiRun(ctx context.Context, bes map[string]backend.Backend, args ...string) (res CmdResult) {
+	return c14MultiRunIn(ctx, bes, nil, args...)
+}
+
+func c14MultiRunIn(ctx context.Context, bes map[string]backend.Backend, stdin []byte, args ...string) (res CmdResult) {
 	cliMu.Lock()
 	os.Setenv("RESTIC_PASSWORD", "geheim")
 	os.Setenv("RESTIC_FROM_PASSWORD", "geheim")
@@ -205,7 +209,7 @@ func c14MultiRun(ctx context.Context, bes map[string]backend.Backend, args ...st
 		location.NoPassword, open, open))
 	gopts := global.Options{Backends: reg}
 	var stdout, stderr bytes.Buffer
-	term, cancelTerm := termstatus.Setup(io.NopCloser(bytes.NewReader(nil)), &stdout, &stderr, false)
+	term, cancelTerm := termstatus.Setup(io.NopCloser(bytes.NewReader(stdin)), &stdout, &stderr, false)
 	gopts.Term = term
 	cctx, cancel := context.WithCancel(ctx)
 	root := newRootCommand(&gopts)
@@ -321,18 +325,18 @@ func c14Scenario(h *H, root string, si int) {
 	if withCopy {
 		srcBe = mem.New()
 		bes := map[string]backend.Backend{"src": srcBe}
-		ctree := &c11Tree{dir: filepath.Join(dir, "csrc"), hashes: map[string][32]byte{}}
-		c11Grow(h, ctree, 7, 1)
-		steps := [][]string{{"-r", "mem:src", "init"}, {"-r", "mem:src", "backup", ctree.dir, "--host", "c0"},
-			{"-r", "mem:src", "backup", ctree.dir, "--host", "c1"}}
-		for _, st := range steps {
-			if r := c14MultiRun(ctx, bes, st...); r.Err != nil {
-				panic(fmt.Sprintf("c14: preparing the copy source failed: %v %v\n%s", st, r.Err, r.Stderr))
-			}
-		}
-		c11Grow(h, ctree, 8, 1)
-		if r := c14MultiRun(ctx, bes, "-r", "mem:src", "backup", ctree.dir, "--host", "c2"); r.Err != nil {
+		// identical trees need identical metadata of everything in the tree, ancestors of the
+		// backup target included — so the source snapshots are made from stdin with a fixed time
+		blobA, blobB := h.Bytes(600000+h.Intn(900000)), h.Bytes(300000+h.Intn(600000))
+		if r := c14MultiRun(ctx, bes, "-r", "mem:src", "init"); r.Err != nil {
 			panic(fmt.Sprintf("c14: preparing the copy source failed: %v\n%s", r.Err, r.Stderr))
+		}
+		for i, blob := range [][]byte{blobA, blobA, blobB} {
+			r := c14MultiRunIn(ctx, bes, blob, "-r", "mem:src", "backup", "--stdin", "--stdin-filename", "blob.bin",
+				"--time", "2020-02-03 04:05:06", "--host", fmt.Sprintf("c%d", i))
+			if r.Err != nil {
+				panic(fmt.Sprintf("c14: preparing the copy source failed: %v\n%s", r.Err, r.Stderr))
+			}
 		}
 		a12RemoveLocks(srcBe)
 	}
